@@ -2,6 +2,7 @@ import GnpyModel
 import GnpyProofs.Lemmas.Route
 import GnpyProofs.Lemmas.Disjoint
 import GnpyProofs.Props.C11
+import GnpyProofs.Lemmas.Selection
 /- Property theorems for C12 — requests declared disjoint never share a link in either direction.
    Model: GnpyModel/Route.lean (`LinkDisjoint`, `isdisjointPy`, `shortOf`, `revChain`, `disjointOracle`, steps 2-5 of
    `compute_path_dsjctn` over abstract candidates). -/
@@ -138,6 +139,115 @@ theorem disjointOracle_iff (g : Graph) (hg : g.WF) (isRoadm : V → Bool) (r1 r2
   · rintro ⟨p, q, hp, hpl, hpa, hq, hql, hqa, hd⟩
     exact ⟨p, ⟨hp, hpl⟩, hpa, q, ⟨hq, hql⟩, hqa, hd⟩
 
+/-! ### the candidate selection of `compute_path_dsjctn` (steps 2-5) -/
+
+/-- **step 2 only builds disjoint combinations (pair)**: every combination produced for a vector of two requests is a
+pair of candidates, one per request, that passed the implementation's test -/
+theorem step2_combinations_disjoint (inp : SelInput) (r0 r1 : Nat) (sol : List Cand) (h : sol ∈ step2 inp [r0, r1]) :
+    ∃ i j, sol = [(r0, i), (r1, j)] ∧ i < inp.ncand r0 ∧ j < inp.ncand r1 ∧ inp.dis (r1, j) (r0, i) = true := by
+  obtain ⟨i, hi, j, hj, hs, hd⟩ := (mem_step2_pair inp r0 r1 sol).1 h
+  exact ⟨i, j, hs, hi, hj, hd⟩
+
+theorem step4_nil_iff (inp : SelInput) (combos : List (List Cand)) :
+    step4 inp combos = [] ↔ ∀ sol ∈ combos, sol.all (accCand inp) = false := by
+  unfold step4
+  simp only
+  constructor
+  · intro h sol hsol
+    by_contra hacc
+    have hacc' : sol.all (accCand inp) = true := by simpa using hacc
+    by_cases hok : sol.all (fun c => !(inp.hasInc c.1) || inp.okInc c) = true
+    · have hmem : sol ∈ combos.filter (fun sol => sol.all (fun c => !(inp.hasInc c.1) || inp.okInc c)) :=
+        List.mem_filter.2 ⟨hsol, hok⟩
+      split at h
+      · rw [h] at hmem; simp at hmem
+      next hne =>
+        have hemp : (combos.filter (fun sol => sol.all (fun c => !(inp.hasInc c.1) || inp.okInc c))).isEmpty = true := by
+          simpa using hne
+        have := List.isEmpty_iff.1 hemp
+        rw [this] at hmem; simp at hmem
+    · split at h
+      next hne =>
+        simp only [Bool.not_eq_true'] at hne
+        have : (combos.filter (fun sol => sol.all (fun c => !(inp.hasInc c.1) || inp.okInc c))) ≠ [] := by
+          intro he; rw [he] at hne; simp at hne
+        exact this h
+      next =>
+        have hmem : sol ∈ combos.filter (fun sol =>
+            !(sol.all (fun c => !(inp.hasInc c.1) || inp.okInc c)) &&
+            sol.all (fun c => !(inp.hasInc c.1) || inp.okInc c || !(inp.hasStrict c.1))) := by
+          refine List.mem_filter.2 ⟨hsol, ?_⟩
+          simp only [Bool.and_eq_true, Bool.not_eq_true']
+          refine ⟨by simpa using hok, ?_⟩
+          simpa [accCand] using hacc'
+        rw [h] at hmem; simp at hmem
+  · intro h
+    have hok : combos.filter (fun sol => sol.all (fun c => !(inp.hasInc c.1) || inp.okInc c)) = [] := by
+      apply List.filter_eq_nil_iff.2
+      intro sol hsol hall
+      have := h sol hsol
+      simp only [List.all_eq_false, accCand] at this
+      obtain ⟨c, hc, hcc⟩ := this
+      have := (List.all_eq_true.1 hall) c hc
+      simp_all
+    rw [hok]
+    simp only [List.isEmpty_nil, Bool.not_true, Bool.false_eq_true, if_false]
+    apply List.filter_eq_nil_iff.2
+    intro sol hsol hall
+    have := h sol hsol
+    simp only [Bool.and_eq_true] at hall
+    have h2 : sol.all (accCand inp) = true := hall.2
+    rw [h2] at this
+    exact absurd this (by simp)
+
+theorem step5_single_none_iff (d : Nat) (cs : List (List Cand)) (todo : List Nat) :
+    step5 [d] [(d, cs)] todo = none ↔ cs = [] := by
+  unfold step5
+  cases cs with
+  | nil => simp [step5.go, List.lookup]
+  | cons sol rest =>
+    simp [step5.go, List.lookup]
+
+/-- **C12, pair completeness (selection level).**  For one synchronisation vector of two requests, steps 2-5 end in a
+`DisjunctionError` exactly when no pair of candidates passes the disjointness test with both candidates acceptable
+(include list honoured, or list all-LOOSE).  Together with `isdisjoint_test_iff_linkDisjoint` (the test means
+link-disjointness) and `disjointOracle_iff` this is: for a single pair a disjoint solution is found whenever one
+exists among the candidates of at most 80 hops. -/
+theorem pair_complete (inp : SelInput) (d r0 r1 : Nat) (reqs : List Nat) :
+    selectDisjoint inp [(d, [r0, r1])] reqs = none ↔
+      ¬ ∃ i, i < inp.ncand r0 ∧ ∃ j, j < inp.ncand r1 ∧ inp.dis (r1, j) (r0, i) = true ∧
+          accCand inp (r0, i) = true ∧ accCand inp (r1, j) = true := by
+  unfold selectDisjoint
+  simp only [List.map_cons, List.map_nil]
+  rw [step3_single]
+  simp only [List.map_cons, List.map_nil]
+  rw [step5_single_none_iff, step4_nil_iff]
+  constructor
+  · rintro h ⟨i, hi, j, hj, hd, ha0, ha1⟩
+    have := h [(r0, i), (r1, j)] ((mem_step2_pair inp r0 r1 _).2 ⟨i, hi, j, hj, rfl, hd⟩)
+    simp [ha0, ha1] at this
+  · intro h sol hsol
+    obtain ⟨i, hi, j, hj, rfl, hd⟩ := (mem_step2_pair inp r0 r1 sol).1 hsol
+    by_contra hcon
+    have hall : [(r0, i), (r1, j)].all (accCand inp) = true := by simpa using hcon
+    simp only [List.all_cons, List.all_nil, Bool.and_true, Bool.and_eq_true] at hall
+    exact h ⟨i, hi, j, hj, hd, hall.1, hall.2⟩
+
+/-- larger or overlapping vectors: completeness is NOT claimed (`…_partial`).  Full statement that is false in general:
+    `selectDisjoint inp groups reqs = none ↔ ¬ ∃ assignment of one acceptable candidate per request, pairwise passing
+    the test inside every vector`.  Counter-example shape: vectors {A,B} and {A,C}; the first combination of {A,B}
+    fixes a path of A for which {A,C} has no combination, while another path of A serves both (step 5 never
+    backtracks).  What holds for any vector structure is the error direction of a single vector: -/
+theorem group_complete_partial (inp : SelInput) (d : Nat) (dl reqs : List Nat)
+    (h : ∀ sol ∈ step2 inp dl, sol.all (accCand inp) = false) :
+    selectDisjoint inp [(d, dl)] reqs = none := by
+  unfold selectDisjoint
+  simp only [List.map_cons, List.map_nil]
+  rw [step3_single]
+  simp only [List.map_cons, List.map_nil]
+  rw [step5_single_none_iff, step4_nil_iff]
+  exact h
+
 /-! ### non-vacuity: two ROADM triangles' worth of OMS -/
 
 def oAB : Oms := ⟨0, 10, 1⟩
@@ -150,6 +260,16 @@ example : Adjacent [oAB, oBC] ∧ RevOk demoRev [oAB, oBC] ∧ Separated [oAB, o
   refine ⟨by unfold Adjacent; decide, by unfold RevOk; decide, by unfold Separated; decide⟩
 example : isdisjointPy (shortOf [oAB, oBC]) (shortOf [oCB, oBA]) = 0 := by decide
 example : isdisjointPy (shortOf (revChain demoRev [oAB, oBC])) (shortOf [oCB, oBA]) = 1 := by decide
+/-- selection, non-vacuity: two requests with 2 candidates each, only (0,1)/(1,0) disjoint -/
+def demoSel : SelInput where
+  ncand := fun _ => 2
+  dis := fun c c' => (c == (1, 0) && c' == (0, 1)) || (c == (0, 1) && c' == (1, 0))
+  okInc := fun _ => true
+  hasStrict := fun _ => false
+  hasInc := fun _ => false
+
+example : selectDisjoint demoSel [(7, [0, 1])] [0, 1] = some [(0, 1), (1, 0)] := by decide
+example : selectDisjoint { demoSel with dis := fun _ _ => false } [(7, [0, 1])] [0, 1] = none := by decide
 example : sitesOf [oAB, oBC] = [0, 1, 2] ∧ linksC [oAB, oBC] = [(0, 1), (1, 2)] := by decide
 
 end Gnpy.Route
